@@ -517,7 +517,7 @@ def _refdesc(space, name, proxy):
     from modelx.core.base import Interface
     v = proxy.value
     if isinstance(v, Interface):
-        val = ("object", type(v).__name__, v.fullname)
+        val = ("object", type(v).__name__, _relname(v))
     elif is_symbolic(v):
         val = ("value", "symbolic", "?")
     else:
@@ -526,6 +526,12 @@ def _refdesc(space, name, proxy):
         except Exception:
             val = ("value", type(v).__name__, "<unreprable>")
     return (val, proxy.refmode)
+
+
+def _relname(obj):
+    """Dotted name without the model's name."""
+    fn = obj.fullname
+    return fn.split(".", 1)[1] if "." in fn else ""
 
 
 def describe_cells(c):
@@ -547,7 +553,7 @@ def describe_cells(c):
 
 
 def describe_space(sp, with_items=True):
-    d = {"bases": [b.fullname for b in sp._direct_bases], "mro": [b.fullname for b in sp.bases],
+    d = {"bases": [_relname(b) for b in sp._direct_bases], "mro": [_relname(b) for b in sp.bases],
          "formula": sp.formula.source if sp.formula is not None else None, "doc": sp.doc, "allow_none": sp.allow_none,
          "cells": {n: describe_cells(c) for n, c in sp.cells.items()},
          "refs": {n: _refdesc(sp, n, sp._get_object(n, as_proxy=True)) for n in sp._own_refs},
